@@ -189,3 +189,12 @@ plan("C05", "exploration",
      lambda tier: [S("C05", 24000 if tier == "quick" else 1000000)],
      assumptions=["direct kernels are not called below their documented minimum length or with misaligned RAID buffers", "relocating unconsumed input between calls is legal (the codec recomputes its base from next_in - total_in)",
                   "level_buf is 16-byte aligned as any malloc'ed buffer"])
+
+plan("C15", "exploration",
+     "The harness links the library as a shared object, resolves every dispatcher (warm-up), makes the library's own writable mappings read-only and then runs: the cross-unit workload from 2..16 threads "
+     "(write to library data = fault, results == serial), warm snapshot diff, forked cold-start races with all slots re-armed, determinism under two garbage pre-fills of context/level_buf/output/"
+     "hufftables/isal_dict, and reuse histories (A possibly abandoned, reset/init, B == fresh B). Interleavings are sampled, not enumerated. Non-trivial: >= 2 threads or a mid-stream abandon.",
+     lambda tier: [S("C15", 2400 if tier == "quick" else 100000, workers=8)],
+     assumptions=["thread interleavings are not enumerated: the structural premise (no write to library data after selection) is monitored by page protection",
+                  "user-supplied fields are re-set after isal_deflate_reset / isal_inflate_reset, which document that they keep them",
+                  "struct isal_dict.level is initialised by the caller (the function reads it first)"])
